@@ -168,6 +168,12 @@ def variants_leg(ck, servers, rnd, tier):
     for m in (1023, 1025, 2047, 2049, 3071, 3073, 4095, 8191):
         for algs in ([GEX256], [GEX1, GEX256]):
             add(algs, [m], 'roundup', 'SSH-2.0-Generic_1.0', {a: (m, False) for a in algs}, 'odd-size')
+    # SSH_MSG_DEBUG messages in front of the group and of the reply (legal at any time): the group is handed out all the same
+    for k in (1, 2, 3):
+        for moduli, style in (([1024], 'roundup'), ([2048, 4096], 'strict'), ([3072], 'roundup')):
+            smallest = min(moduli)
+            add([GEX1, GEX256], moduli, style, 'SSH-2.0-Generic_1.0', {a: (smallest, False) for a in (GEX1, GEX256)}, 'debug-before-group')
+            cfgs[-1]['debug_kinds'] = {'gexgroup': k, 'gexreply': k}
     fb = [k for k in sorted(servers) if k[2] and k[1] == 'openssh' and servers[k]['reported'] and all(v['fallback'] for v in servers[k]['reported'].values())]
     for k in rnd.sample(fb, min(len(fb), 6 if tier == 'quick' else 40)):
         e = servers[k]
